@@ -439,6 +439,9 @@ def check_b(ck, repo):
     # the wrapping into tuples happens before the section: bindings made outside the
     # n-gram guard other than the unpacking of ngram_range are not part of the comparison
     for k in ("outer", "inner", "window", "receiver", "guards", "returns"):
+        if a[k] != b[k] and "__it__(" in str(a[k]):
+            ck.unknown("C14.b", fi, f"n-gram section: {k} = {str(a[k])[:70]}", "a loop variable reaches this expression through a helper's parameter: the expansion cannot name its value, nothing is decided about it")
+            continue
         if k == "window" and a[k] != b[k] and not a["window_understood"]:
             ck.unknown("C14.b", fi, f"n-gram section: window = {str(a[k])[:70]}", "the value appended is not the join of a window of the tokens in a form this analysis expands")
             continue
@@ -487,16 +490,24 @@ def check_c(ck, repo):
         # by path evaluation: a result held in a local before being returned is the same delegation
         ps_ = [p for p in paths(m) if p.ret != RAISE]
         r = [p.ret for p in ps_ if isinstance(p.ret, ast.AST)]
-        ok = len(ps_) == 1 and len(r) == 1 and not ps_[0].conds and isinstance(r[0], ast.Call) and src_of(r[0].func) == "NGramsMixin._word_ngrams"
-        if ok:
-            c = r[0]
+        ok = len(ps_) >= 1 and len(r) == len(ps_) and all(isinstance(x, ast.Call) and src_of(x.func) == "NGramsMixin._word_ngrams" for x in r)
+        swp = m.named_params[2] if len(m.named_params) > 2 else "stop_words"
+        for p_ in ps_ if ok else []:
+            c = p_.ret
             a0 = src_of(c.args[0]) if c.args else None
             tk, sw = kwarg(c, "tokens"), kwarg(c, "stop_words")
             if tk is None and len(c.args) > 1:
                 tk = c.args[1]
             if sw is None and len(c.args) > 2:
                 sw = c.args[2]
-            ok = a0 == "self" and tk is not None and src_of(tk) == m.named_params[1] and sw is not None and src_of(sw) == m.named_params[2]
+            # on a path where stop_words is None, leaving it out (the mixin's default) or passing None forwards it
+            is_none = (f"{swp} is None", True) in p_.conds or (f"{swp} is not None", False) in p_.conds
+            if sw is None:
+                mx = repo.cls(MOD, "NGramsMixin").methods["_word_ngrams"].node.args
+                dflt = dict(zip([a_.arg for a_ in mx.args][-len(mx.defaults):], mx.defaults)) if mx.defaults else {}
+                is_none = is_none and "stop_words" in dflt and src_of(dflt["stop_words"]) == "None"
+            sw_ok = (sw is not None and src_of(sw) == swp) or (is_none and (sw is None or src_of(sw) == "None"))
+            ok = ok and a0 == "self" and tk is not None and src_of(tk) == m.named_params[1] and sw_ok
         ck.verdict(ok, "C14.c", m, r[0] if r else f"{cname}._word_ngrams", "explicit delegation to the mixin with tokens and stop_words forwarded", f"{cname}._word_ngrams does not forward (tokens, stop_words) to NGramsMixin._word_ngrams")
         bases = ci.bases
         ck.verdict(len(bases) == 2 and bases[0] == base and bases[1].endswith("NGramsMixin"), "C14.c", None, f"class {cname}({', '.join(b.split('.')[-1] for b in bases)})", "scikit-learn vectorizer first, mixin second (explicit delegation required and present)", f"bases of {cname} are {bases}", file=ci.module.relpath, function=cname, line=ci.node.lineno)
@@ -537,6 +548,8 @@ def run(ck):
     repo = _view(ck.repo)
     for k, v in RULES.items():
         ck.rule(k, v)
+    from .sem import merge_side_list
+    merge_side_list(repo.cls(MOD, "NGramsMixin").methods["_word_ngrams"])
     check_a(ck, repo)
     check_b(ck, repo)
     check_c(ck, repo)
